@@ -48,12 +48,13 @@ pub enum Expect {
 
 /// The four white-space characters the property decides.
 fn decided_ws(c: char) -> bool {
-    matches!(c, ' ' | '\t' | '\n' | '\r')
+    // the six ASCII white-space characters of C's isspace(): space, \t, \n, \v, \f, \r
+    matches!(c, ' ' | '\t' | '\n' | '\r' | '\x0b' | '\x0c')
 }
 
 /// Anything some reasonable notion of "white space" covers (Unicode
 /// White_Space, the ASCII separators Python/Java count, zero-width and BOM
-/// characters). Outside the four decided characters this is unspecified.
+/// characters). Outside the six decided ASCII characters this is unspecified.
 fn ws_like(c: char) -> bool {
     c.is_whitespace()
         || matches!(c, '\u{1c}'..='\u{1f}' | '\u{180e}' | '\u{200b}'..='\u{200d}' | '\u{2060}' | '\u{feff}')
@@ -465,7 +466,7 @@ enum Tok {
     Junk(Vec<u8>),
 }
 
-const WS: [&str; 10] = [" ", "\n", "\t", "\r", "\r\n", "  ", " \t", "\n\n", " \r\n\t ", "\t\t\n"];
+const WS: [&str; 13] = [" ", "\n", "\t", "\r", "\r\n", "  ", " \t", "\n\n", " \r\n\t ", "\t\t\n", "\x0b", "\x0c", " \x0b\x0c "];
 const CASE_MODES: u8 = 4;
 const WS_MODES: u8 = 11;
 
@@ -723,7 +724,7 @@ fn malformed_strategy() -> impl Strategy<Value = Decode> {
 }
 
 const OTHER_WS: &[char] = &[
-    '\u{b}', '\u{c}', '\u{85}', '\u{a0}', '\u{1680}', '\u{2003}', '\u{2009}', '\u{2028}', '\u{2029}', '\u{202f}', '\u{205f}', '\u{3000}', '\u{200b}', '\u{feff}',
+    '\u{85}', '\u{a0}', '\u{1680}', '\u{2003}', '\u{2009}', '\u{2028}', '\u{2029}', '\u{202f}', '\u{205f}', '\u{3000}', '\u{200b}', '\u{feff}',
     '\u{1f}', '\u{1c}',
 ];
 
@@ -760,7 +761,7 @@ fn unspecified_strategy() -> impl Strategy<Value = Decode> {
         m.defect = Some(format!("unspecified:{name}{}", if also_broken { "+defect" } else { "" }));
         let mut input = flatten(&t);
         if !matches!(reference(&input), Expect::Unspecified(_)) {
-            input.push(0x0b);
+            input.extend_from_slice("\u{a0}".as_bytes());
         }
         assert!(matches!(reference(&input), Expect::Unspecified(_)), "harness: the unspecified generator produced a decided input {:?}", preview(&input));
         Decode::new(ch, &input, m)
@@ -793,6 +794,8 @@ const FIXED_VALID: &[(&str, &[u8])] = &[
     ("0x3078", b"0x"),
     ("0x30783030", b"0x00"),
     ("0000", &[0, 0]),
+    ("00\x0b11", &[0x00, 0x11]),
+    ("\x0c0x\x0bff\x0c", &[0xff]),
     ("0x0123456789abcdefABCDEF", &[0x01, 0x23, 0x45, 0x67, 0x89, 0xab, 0xcd, 0xef, 0xab, 0xcd, 0xef]),
 ];
 
@@ -802,7 +805,7 @@ const FIXED_MALFORMED: &[&[u8]] = &[
     b"0x12\0", b"\0", b"\xff", b"12\xff", b"\xc3", b"0x\xc3\x28", b"12\xed\xa0\x8034",
 ];
 
-const FIXED_UNSPECIFIED: &[&str] = &["0X00", "0 x00", "0\nx00", "0X", "00\u{a0}11", "\u{feff}0x00", "00\x0b11", "0 X0"];
+const FIXED_UNSPECIFIED: &[&str] = &["0X00", "0 x00", "0\nx00", "0X", "00\u{a0}11", "\u{feff}0x00", "0 X0"];
 
 /// (c) every byte value at six positions: as a lone input, next to one
 /// digit, inside and after a prefixed pair, between two pairs.
@@ -847,10 +850,10 @@ fn setup(ctx: &Ctx) {
 
 pub fn run(ctx: &mut Ctx) {
     setup(ctx);
-    ctx.rule = "CLI subprocess runs of the overflow-checked build, input by stdin (default and explicit `-`) and by file (with decoy stdin). (a) byte strings of length 0..=4096 (uniform bytes; all-0, all-ff, every byte value in turn, text, white-space bytes, hex-looking text, UTF-8, trailing line ends, bytes >= 0x80, control bytes; every single byte value and every length of a range as sweeps): `hex encode` must print exactly 0x + lower-case digits + newline and `hex decode` of that very output must return the bytes. (b) the digits of such strings re-spelled: 0x present/absent, digit case lower/upper/random/alternating, 11 white-space layouts over {space, tab, LF, CR} (ends, between bytes, between the two digits of a byte, wrapped lines, after the prefix, dense runs): must decode to the same bytes. (c) malformed inputs made from a well-formed spelling by one defect (digit dropped/added, non-hex character inserted/replacing a digit/at either end, second or misplaced prefix, bytes that are not UTF-8), every byte value at six positions, all 484 two-digit spellings, hand-written tables: error exit and empty stdout. Oracle: a reference decoder written from the property text (own nibble table; decides only space/tab/LF/CR, lower-case 0x with no white space inside). Undecided inputs (other white space, white space inside the prefix, 0X) are only required not to panic. Non-trivial: data non-empty and not ASCII text (round trip: distinct by data; layouts: spelling differs from the canonical one, distinct by input text), malformed inputs with at least two hex digits (distinct by input).".into();
+    ctx.rule = "CLI subprocess runs of the overflow-checked build, input by stdin (default and explicit `-`) and by file (with decoy stdin). (a) byte strings of length 0..=4096 (uniform bytes; all-0, all-ff, every byte value in turn, text, white-space bytes, hex-looking text, UTF-8, trailing line ends, bytes >= 0x80, control bytes; every single byte value and every length of a range as sweeps): `hex encode` must print exactly 0x + lower-case digits + newline and `hex decode` of that very output must return the bytes. (b) the digits of such strings re-spelled: 0x present/absent, digit case lower/upper/random/alternating, 11 white-space layouts over the six ASCII white-space characters {space, tab, LF, VT, FF, CR} (ends, between bytes, between the two digits of a byte, wrapped lines, after the prefix, dense runs): must decode to the same bytes. (c) malformed inputs made from a well-formed spelling by one defect (digit dropped/added, non-hex character inserted/replacing a digit/at either end, second or misplaced prefix, bytes that are not UTF-8), every byte value at six positions, all 484 two-digit spellings, hand-written tables: error exit and empty stdout. Oracle: a reference decoder written from the property text (own nibble table; decides only space/tab/LF/CR, lower-case 0x with no white space inside). Undecided inputs (other white space, white space inside the prefix, 0X) are only required not to panic. Non-trivial: data non-empty and not ASCII text (round trip: distinct by data; layouts: spelling differs from the canonical one, distinct by input text), malformed inputs with at least two hex digits (distinct by input).".into();
     ctx.assumptions = vec![
         "exit 255 or 2 without panic text is an ordinary error; nothing is required of stderr".into(),
-        "white space other than space, tab, LF, CR, white space inside the 0x prefix and an upper-case 0X prefix are not decided by the property (checked for absence of panic only)".into(),
+        "white space other than the six ASCII characters space, tab, LF, VT, FF, CR (that is, non-ASCII Unicode white space, zero-width characters, 0x1c-0x1f), white space inside the 0x prefix and an upper-case 0X prefix are not decided by the property (checked for absence of panic only)".into(),
         "the observed executable is the overflow-checked release build".into(),
     ];
     for (text, bytes) in FIXED_VALID {
